@@ -1,43 +1,91 @@
 (* C20 - case records and boolean checkers for the generated case files.
    corr_f : implementation's observation = model's output
-   holds_f : implementation's observation satisfies the defining formula (Spec.v) *)
-From Coq Require Import List Bool Arith ZArith QArith Qcanon.
+   holds_f : implementation's observation satisfies the defining formula (Spec.v);
+             on inputs the property text says nothing about (size 0, negative
+             lag, step <= 0, high < low apart from the error itself) holds_f
+             demands nothing: there only corr_f ties model and code. *)
+From Coq Require Import String List Bool Arith ZArith QArith Qcanon.
 From AL Require Import Base.CaseLib C20.Model C20.Spec.
 Import ListNotations.
 Open Scope Qc_scope.
 
 Definition qlist_eqb := list_eqb Qc_eqb.
-Definition oqlist_eqb := option_eqb qlist_eqb.
+Definition res_eqb {A : Type} (e : A -> A -> bool) (a b : res A) : bool :=
+  match a, b with
+  | Ok x, Ok y => e x y
+  | Err x, Err y => String.eqb x y
+  | _, _ => false
+  end.
+Definition rqlist_eqb := res_eqb qlist_eqb.
 
 (* ---------------------------------------------------------------- maverage *)
-(* obs = None: the call raised *)
 Record mvcase := MV { mv_s : mav_strategy; mv_c : Qc; mv_size : nat; mv_zero : Qc;
-                      mv_xs : list Qc; mv_obs : option (list Qc) }.
-Fixpoint is_pow2_fuel (fuel n : nat) : bool :=
-  match fuel with
-  | O => false
-  | S f => (n =? 1)%nat || (Nat.even n && negb (n =? 0)%nat && is_pow2_fuel f (Nat.div2 n))
-  end.
-Definition is_pow2 (n : nat) : bool := is_pow2_fuel (S n) n.
+                      mv_xs : list Qc; mv_obs : res (list Qc) }.
 Definition corr_mav (c : mvcase) : bool :=
-  oqlist_eqb (mv_obs c) (maverage (mv_s c) (mv_c c) (mv_size c) (mv_zero c) (mv_xs c)).
-(* also: for a power-of-two size the library constant is exactly 1/size *)
+  rqlist_eqb (mv_obs c) (maverage (mv_s c) (mv_c c) (mv_size c) (mv_zero c) (mv_xs c)).
+(* size >= 1: the output is c * (sum of the last size samples) (+ the rounding
+   residual of c for deque/recursive), and c is 1/size up to one float rounding *)
 Definition holds_mav (c : mvcase) : bool :=
-  oqlist_eqb (mv_obs c) (maverage_spec (mv_s c) (mv_c c) (mv_size c) (mv_zero c) (mv_xs c))
-  && (if is_pow2 (mv_size c) then Qc_eqb (mv_c c * nq (mv_size c)) 1 else true).
+  match mv_size c with
+  | O => true
+  | _ => rqlist_eqb (mv_obs c) (Ok (mav_spec_off (mv_s c) (mv_c c) (mv_size c) (mv_zero c) (mv_xs c)))
+         && rounded_inverse (mv_c c) (mv_size c)
+  end.
 
 (* ---------------------------------------------------------------- accumulate *)
-Record accase := AC { ac_s : acc_strategy; ac_xs : list Qc; ac_obs : option (list Qc) }.
-Definition corr_acc (c : accase) : bool := oqlist_eqb (ac_obs c) (Some (accumulate (ac_s c) (ac_xs c))).
-Definition holds_acc (c : accase) : bool := oqlist_eqb (ac_obs c) (Some (acc_spec (ac_xs c))).
+Record accase := AC { ac_s : acc_strategy; ac_xs : list Qc; ac_obs : res (list Qc) }.
+Definition corr_acc (c : accase) : bool := rqlist_eqb (ac_obs c) (Ok (accumulate (ac_s c) (ac_xs c))).
+Definition holds_acc (c : accase) : bool := rqlist_eqb (ac_obs c) (Ok (acc_spec (ac_xs c))).
+
+(* ---------------------------------------------------------------- linear tools on symbolic samples
+   The implementation was run on LinForm samples x0..x{L-1} and zero = z; row n
+   of the observation holds the coefficients of output n: [constant; z; x0; ...].
+   Column v must be the model's (spec's) output on the v-th basis input. *)
+Inductive lintool := LMav (s : mav_strategy) (c : Qc) (size : nat) | LAcc (s : acc_strategy).
+Record lincase := LC { lc_tool : lintool; lc_len : nat; lc_obs : res (list (list Qc)) }.
+Definition unit_at (L j : nat) : list Qc := map (fun i => if (i =? j)%nat then 1 else 0) (seq 0 L).
+(* basis input number v: 0 = everything 0 (constant term), 1 = zero, v >= 2 = x{v-2} *)
+Definition basis_zero (v : nat) : Qc := if (v =? 1)%nat then 1 else 0.
+Definition basis_xs (L v : nat) : list Qc := unit_at L (v - 2 + (if (v <? 2)%nat then L else 0)).
+Definition lin_model (t : lintool) (zero : Qc) (xs : list Qc) : res (list Qc) :=
+  match t with
+  | LMav s c size => maverage s c size zero xs
+  | LAcc s => Ok (accumulate s xs)
+  end.
+Definition lin_spec (t : lintool) (zero : Qc) (xs : list Qc) : res (list Qc) :=
+  match t with
+  | LMav s c size => Ok (mav_spec_off s c size zero xs)
+  | LAcc s => Ok (acc_spec xs)
+  end.
+Definition lin_check (f : lintool -> Qc -> list Qc -> res (list Qc)) (c : lincase) : bool :=
+  match lc_obs c with
+  | Err e => res_eqb qlist_eqb (Err e) (f (lc_tool c) 0 (repeat 0 (lc_len c)))
+  | Ok rows =>
+      forallb (fun row => (length row =? lc_len c + 2)%nat) rows &&
+      forallb (fun v => res_eqb qlist_eqb (Ok (map (fun row => nth v row 0) rows))
+                                (f (lc_tool c) (basis_zero v) (basis_xs (lc_len c) v)))
+              (seq 0 (lc_len c + 2))
+  end.
+Definition corr_lin (c : lincase) : bool := lin_check lin_model c.
+Definition holds_lin (c : lincase) : bool :=
+  match lc_tool c with
+  | LMav _ _ O => true
+  | LMav _ cc size => lin_check lin_spec c && rounded_inverse cc size
+  | _ => lin_check lin_spec c
+  end.
 
 (* ---------------------------------------------------------------- amdf *)
-Record amcase := AM { am_c : Qc; am_size : nat; am_zero : Qc; am_lag : lagspec;
-                      am_xs : list Qc; am_obs : option (list Qc) }.
+Record amcase := AM { am_c : Qc; am_size : nat; am_zero : Qc; am_lag : Qc;
+                      am_xs : list Qc; am_obs : res (list Qc) }.
 Definition corr_amdf (c : amcase) : bool :=
-  oqlist_eqb (am_obs c) (amdf (am_c c) (am_size c) (am_zero c) (am_lag c) (am_xs c)).
+  rqlist_eqb (am_obs c) (amdf (am_c c) (am_size c) (am_zero c) (am_lag c) (am_xs c)).
 Definition holds_amdf (c : amcase) : bool :=
-  oqlist_eqb (am_obs c) (amdf_spec (am_c c) (am_size c) (am_zero c) (am_lag c) (am_xs c)).
+  match am_size c with
+  | O => true
+  | _ => if Qc_ltb (am_lag c) 0 then true
+         else rqlist_eqb (am_obs c) (Ok (amdf_spec (am_c c) (am_size c) (am_zero c) (am_lag c) (am_xs c)))
+              && rounded_inverse (am_c c) (am_size c)
+  end.
 
 (* ---------------------------------------------------------------- envelope *)
 Definition eout_eqb (a b : eout) : bool :=
@@ -46,48 +94,61 @@ Definition eout_eqb (a b : eout) : bool :=
   | Sqrt x, Sqrt y => Qc_eqb x y
   | _, _ => false
   end.
+(* ev_direct: what lowpass(cutoff) itself returned on the rectified / squared
+   samples (computed by the harness with a second, direct filter call) *)
 Record evcase := EV { ev_s : env_strategy; ev_g : Qc; ev_a1 : Qc; ev_xs : list Qc;
-                      ev_obs : option (list eout) }.
+                      ev_direct : list Qc; ev_obs : res (list eout) }.
 Definition corr_env (c : evcase) : bool :=
-  option_eqb (list_eqb eout_eqb) (ev_obs c) (Some (envelope (ev_s c) (ev_g c) (ev_a1 c) (ev_xs c))).
+  res_eqb (list_eqb eout_eqb) (ev_obs c) (Ok (envelope (ev_s c) (ev_g c) (ev_a1 c) (ev_xs c))).
+Definition env_wrap (s : env_strategy) (l : list Qc) : list eout :=
+  match s with ERms => map Sqrt l | _ => map Plain l end.
+Definition env_input (s : env_strategy) (xs : list Qc) : list Qc :=
+  match s with EAbs => map qabs xs | _ => map (fun v => v ^ 2) xs end.
+(* the envelope is the library's low-pass applied to |x| / x^2 (then sqrt for rms),
+   and that low-pass is the one-pole recursion's closed form *)
 Definition holds_env (c : evcase) : bool :=
-  option_eqb (list_eqb eout_eqb) (ev_obs c) (Some (envelope_spec (ev_s c) (ev_g c) (ev_a1 c) (ev_xs c))).
+  res_eqb (list_eqb eout_eqb) (ev_obs c) (Ok (env_wrap (ev_s c) (ev_direct c)))
+  && qlist_eqb (ev_direct c) (lowpass_spec (ev_g c) (ev_a1 c) (env_input (ev_s c) (ev_xs c)))
+  && res_eqb (list_eqb eout_eqb) (ev_obs c) (Ok (envelope_spec (ev_s c) (ev_g c) (ev_a1 c) (ev_xs c))).
 
 (* ---------------------------------------------------------------- clip *)
 Record clcase := CL { cl_low : option Qc; cl_high : option Qc; cl_xs : list Qc;
-                      cl_obs : option (list Qc) }.
-Definition corr_clip (c : clcase) : bool := oqlist_eqb (cl_obs c) (clip (cl_low c) (cl_high c) (cl_xs c)).
+                      cl_obs : res (list Qc) }.
+Definition corr_clip (c : clcase) : bool := rqlist_eqb (cl_obs c) (clip (cl_low c) (cl_high c) (cl_xs c)).
 Definition within_b (low high : option Qc) (y : Qc) : bool :=
   match low with Some l => Qc_leb l y | None => true end &&
   match high with Some h => Qc_leb y h | None => true end.
 (* formula, bounds, idempotence (re-clipping the observed output by the formula
-   changes nothing), error exactly for high < low *)
+   changes nothing), identity for (None, None), error exactly for high < low *)
 Definition holds_clip (c : clcase) : bool :=
-  oqlist_eqb (cl_obs c) (clip_spec (cl_low c) (cl_high c) (cl_xs c)) &&
+  rqlist_eqb (cl_obs c) (clip_spec (cl_low c) (cl_high c) (cl_xs c)) &&
   match cl_obs c with
-  | Some ys => forallb (within_b (cl_low c) (cl_high c)) ys
-               && qlist_eqb (map (clip_formula (cl_low c) (cl_high c)) ys) ys
-               && (length ys =? length (cl_xs c))%nat
-  | None => match cl_low c, cl_high c with Some l, Some h => Qc_ltb h l | _, _ => false end
+  | Ok ys => forallb (within_b (cl_low c) (cl_high c)) ys
+             && qlist_eqb (map (clip_formula (cl_low c) (cl_high c)) ys) ys
+             && (length ys =? length (cl_xs c))%nat
+             && match cl_low c, cl_high c with None, None => qlist_eqb ys (cl_xs c) | _, _ => true end
+  | Err _ => match cl_low c, cl_high c with Some l, Some h => Qc_ltb h l | _, _ => false end
   end.
 
 (* ---------------------------------------------------------------- zcross *)
-Record zccase := ZC { zc_h : Qc; zc_fs : Qc; zc_xs : list Qc; zc_obs : option (list Z) }.
+Record zccase := ZC { zc_h : Qc; zc_fs : Qc; zc_xs : list Qc; zc_obs : res (list Z) }.
 Definition corr_zc (c : zccase) : bool :=
-  option_eqb (list_eqb Z.eqb) (zc_obs c) (Some (zcross (zc_h c) (zc_fs c) (zc_xs c))).
+  res_eqb (list_eqb Z.eqb) (zc_obs c) (Ok (zcross (zc_h c) (zc_fs c) (zc_xs c))).
 Definition holds_zc (c : zccase) : bool :=
-  option_eqb (list_eqb Z.eqb) (zc_obs c) (Some (zcross_spec (zc_h c) (zc_fs c) (zc_xs c))) &&
+  res_eqb (list_eqb Z.eqb) (zc_obs c) (Ok (zcross_spec (zc_h c) (zc_fs c) (zc_xs c))) &&
   match zc_obs c with
-  | Some ys => forallb (fun y => Z.eqb y 0 || Z.eqb y 1) ys && (length ys =? length (zc_xs c))%nat
-  | None => false
+  | Ok ys => forallb (fun y => Z.eqb y 0 || Z.eqb y 1) ys && (length ys =? length (zc_xs c))%nat
+  | Err _ => false
   end.
 
 (* ---------------------------------------------------------------- unwrap *)
-(* obs: outputs produced, and whether the stream then raised ZeroDivisionError *)
-Record uwcase := UW { uw_md : Qc; uw_step : Qc; uw_xs : list Qc; uw_obs : list Qc; uw_err : bool }.
+(* obs: outputs produced, and the exception that then ended the stream (if any) *)
+Record uwcase := UW { uw_md : Qc; uw_step : Qc; uw_xs : list Qc; uw_obs : list Qc;
+                      uw_err : option string }.
 Definition corr_uw (c : uwcase) : bool :=
   let '(o, e) := unwrap (uw_md c) (uw_step c) (uw_xs c) in
-  qlist_eqb (uw_obs c) o && Bool.eqb (uw_err c) e.
+  qlist_eqb (uw_obs c) o &&
+  option_eqb String.eqb (uw_err c) (if e then Some "ZeroDivisionError"%string else None).
 Definition is_multiple_b (step d : Qc) : bool :=
   if Qc_eqb step 0 then Qc_eqb d 0 else Pos.eqb (Qden (this (d / step))) 1.
 Fixpoint no_jump_b (md : Qc) (xs : list Qc) : bool :=
@@ -95,28 +156,19 @@ Fixpoint no_jump_b (md : Qc) (xs : list Qc) : bool :=
   | a :: ((b :: _) as r) => Qc_leb (qabs (b - a)) md && no_jump_b md r
   | _ => true
   end.
-Fixpoint until_jump (md : Qc) (xs : list Qc) : list Qc :=
-  match xs with
-  | a :: ((b :: _) as r) => a :: (if Qc_leb (qabs (b - a)) md then until_jump md r else [])
-  | l => l
-  end.
 Fixpoint all2 (f : Qc -> Qc -> bool) (a b : list Qc) : bool :=
   match a, b with
   | [], [] => true
   | x :: a', y :: b' => f x y && all2 f a' b'
   | _, _ => false
   end.
-(* step <> 0: one output per input, each differing from the input by an integer
-   multiple of step; untouched when no input jump exceeds max_delta; no adjacent
-   output jump above max(max_delta, |step|/2).
-   step = 0 (malformed): ZeroDivisionError at the first jump above max_delta,
-   the samples before it untouched. *)
+(* step > 0: no exception, one output per input, each differing from the input by an
+   integer multiple of step; untouched when no input jump exceeds max_delta; no
+   adjacent output jump above max(max_delta, step/2).  step <= 0: nothing demanded. *)
 Definition holds_uw (c : uwcase) : bool :=
-  if Qc_eqb (uw_step c) 0 then
-    qlist_eqb (uw_obs c) (until_jump (uw_md c) (uw_xs c))
-    && Bool.eqb (uw_err c) (negb (no_jump_b (uw_md c) (uw_xs c)))
-  else
-    negb (uw_err c)
+  if Qc_ltb 0 (uw_step c) then
+    match uw_err c with None => true | Some _ => false end
     && all2 (fun o x => is_multiple_b (uw_step c) (o - x)) (uw_obs c) (uw_xs c)
     && (if no_jump_b (uw_md c) (uw_xs c) then qlist_eqb (uw_obs c) (uw_xs c) else true)
-    && no_jump_b (qmax (uw_md c) (qabs (uw_step c) / (1 + 1))) (uw_obs c).
+    && no_jump_b (qmax (uw_md c) (half (uw_step c))) (uw_obs c)
+  else true.
